@@ -45,6 +45,19 @@ func c18Codes(run *ev.Run) {
 			}
 			return false
 		}
+		if c <= 20 || c%65521 == 0 {
+			// the caller owns the slice MarshalText returns: writing into it must
+			// not change what the next MarshalText of the same code returns
+			want := string(txt)
+			for i := range txt {
+				txt[i] = '#'
+			}
+			if again, err := code.MarshalText(); err != nil || string(again) != want {
+				run.Violation(fmt.Sprintf("c18/code-text-shared/%d", c), fmt.Sprintf("Code(%d).MarshalText() returned %q; after the caller overwrote that slice the next call returns %q", c, want, again), nil)
+				return false
+			}
+			txt = []byte(want)
+		}
 		if c >= 1 && c <= 16 {
 			if string(txt) != refcodec.CodeName(c) {
 				run.Violation(fmt.Sprintf("c18/code-name/%d", c), fmt.Sprintf("Code(%d) is named %q, the protocol says %q", c, txt, refcodec.CodeName(c)), nil)
@@ -188,15 +201,38 @@ func c18GRPCMessage(run *ev.Run) {
 			if !run.Want(key) {
 				continue
 			}
-			call := reg.New("c18", &svc.Program{Steps: []svc.Step{{Op: "recv"}}, Return: connect.NewError(connect.CodeInternal, errors.New(m))})
+			steps := []svc.Step{{Op: "recv"}}
+			sentFirst := i%3 == 1
+			if sentFirst {
+				// every third case: the handler has streamed small messages before it
+				// fails (the handler's buffer pool is in the state real traffic leaves
+				// it in, not fresh)
+				steps = append(steps, svc.Step{Op: "send", Msg: &gen.Msg{Id: 2}}, svc.Step{Op: "send", Msg: &gen.Msg{Id: 3}}, svc.Step{Op: "send", Msg: gen.Zero()})
+			}
+			call := reg.New("c18", &svc.Program{Steps: steps, Return: connect.NewError(connect.CodeInternal, errors.New(m))})
 			hdr := http.Header{"Content-Type": {contentType(protocol, "proto", svc.ServerStream)}, wire.CallHeader: {call.ID}}
 			rw := wire.NewRecorder()
 			hs[svc.ServerStream].ServeHTTP(rw, wire.ServerRequest(context.Background(), "POST", svc.ServerStream.Path(), hdr, &wire.ScriptedBody{Data: body}, 2))
 			reg.Drop(call)
 			res := rw.Finish()
+			if res.Status == 0 {
+				run.Violation(key+"/no-response", fmt.Sprintf("ServeHTTP wrote no response for a handler failing with message %q", m), nil)
+				return
+			}
 			raw := res.Trailer.Get("Grpc-Message")
 			if protocol == "grpcweb" {
 				raw = res.Header.Get("Grpc-Message") // trailers-only: no message was sent
+				if sentFirst {
+					raw = ""
+					frames, _ := refcodec.ParseFrames(res.Body)
+					for _, f := range frames {
+						if f.Flags&0x80 != 0 {
+							if t, err := refcodec.ParseWebTrailers(f.Payload); err == nil {
+								raw = t.Get("Grpc-Message")
+							}
+						}
+					}
+				}
 			}
 			run.Count("grpc_message.checked", 1)
 			if !refcodec.IsPrintableASCII(raw) {
@@ -204,7 +240,13 @@ func c18GRPCMessage(run *ev.Run) {
 				return
 			}
 			if refcodec.ValidUTF8(m) {
-				if got := refcodec.PercentDecode(raw); got != m {
+				got := refcodec.PercentDecode(raw)
+				if protocol == "grpcweb" && sentFirst {
+					// in a trailer block the value travels as HTTP/1 header text:
+					// blanks at its edges are not part of it
+					got, m = strings.Trim(got, " \t"), strings.Trim(m, " \t")
+				}
+				if got != m {
 					// an invalid-UTF-8 message may be replaced before encoding; valid ones must round-trip
 					run.Violation(key+"/roundtrip", fmt.Sprintf("Grpc-Message %q decodes to %q, handler's message was %q", raw, got, m), nil)
 					return
